@@ -84,7 +84,8 @@ func main() {
 
 	st := map[string]any{"exists": false, "size": int64(-1), "regular": false, "items": items,
 		"dropped_privileges": dropped, "euid": os.Geteuid(),
-		"goroutines_before": before, "goroutines_after": runtime.NumGoroutine()}
+		"goroutines_before": before, "goroutines_after": runtime.NumGoroutine(),
+		"numcpu": runtime.NumCPU(), "gomaxprocs": runtime.GOMAXPROCS(0)}
 	if c.Path != "" {
 		if fi, err := os.Stat(c.Path); err == nil {
 			st["exists"] = true
